@@ -1084,3 +1084,220 @@ Proof.
   - apply nth_error_None in Ej. destruct (run_ext2 c _ _ _ _ Rf H2) as [_ Fr].
     specialize (Fr _ _ Ej E2). pose proof (i_unit _ (reachf_inv _ _ Rf) _ _ Ek). lia.
 Qed.
+
+(** * 5. liveness half: what can hold a message back at a quiescent point *)
+(* while the server runs its dispatcher is alive *)
+Definition run_dp (s : state) : Prop := running s = true -> dp_live (dp s) = 1.
+
+Lemma raw_run_dp s l s' os : inv s -> run_dp s -> step_raw s l = Some (s', os) -> run_dp s'.
+Proof.
+  intros I P Hs. unfold run_dp in *. destruct (frame_label l) eqn:Fl.
+  { apply step_raw_frame in Hs as (C & _); auto. unfold core in C. injection C as _ _ _ _ _ D _ _ Rn _.
+    rewrite D, Rn. exact P. }
+  destruct l; try discriminate Fl; unfold step_raw in Hs.
+  - destruct (negb (running s) && (wg s =? 0)); [|discriminate]. injection Hs as <- <-. reflexivity.
+  - destruct (find_idx _ 0 (tasks s)) as [k|]; [|discriminate].
+    destruct (nth_error (tasks s) k) as [t|]; [|discriminate]. injection Hs as <- <-. exact P.
+  - destruct (rd s) as [| |f|] eqn:Rd; try discriminate. injection Hs as Hs.
+    destruct f as [i|i|c].
+    3:{ cbn in Hs. destruct (stop_locked c s) as [s0 os0] eqn:St. injection Hs as <- <-. cbn.
+        apply stop_locked_spec in St as [(_ & -> & _)|(_ & _ & Po)]; auto. destruct Po. congruence. }
+    all: destruct (running s) eqn:Rn;
+      [ eapply read_cs_msg in Hs as (C & _); eauto; unfold core0 in C; injection C as _ _ _ _ _ D _ Rn' _;
+        rewrite D, Rn'; intros _; apply P; reflexivity
+      | cbn in Hs; rewrite Rn in Hs; cbn in Hs; injection Hs as <- <-; cbn; congruence ].
+  - destruct (dp s); try discriminate. injection Hs as <- <-.
+    unfold dequeue. destruct (inq s) as [|[b ms] q]; [destruct (running s) eqn:Rn|]; cbn; auto. congruence.
+  - destruct (dp s); try discriminate. injection Hs as <- <-. reflexivity.
+  - destruct (nth_error (tasks s) k) as [t|]; [|discriminate].
+    destruct (t_st t); try discriminate.
+    destruct (negb (unit_running s t)); [discriminate|].
+    destruct (t_cancelled t); [injection Hs as <- <-; exact P|].
+    destruct (sem_free s); [injection Hs as <- <-; exact P|].
+    destruct (sem_wait s); [|injection Hs as <- <-; exact P].
+    destruct (t_builtin t); injection Hs as <- <-; exact P.
+  - destruct (nth_error (tasks s) k) as [t|] eqn:E; [|discriminate].
+    destruct (t_st t) eqn:St; try discriminate.
+    set (s0 := set_task k (fun t => t <| t_st := TDone (body_of_outcome t o) |>) s <| sem_free ::= S |>) in *.
+    assert (W0 : wait_ok s0).
+    { unfold wait_ok, s0; cbn. apply wait_ok_upd; [apply I|]. eapply wait_not_in; eauto; [apply I|congruence]. }
+    pose proof (grant_spec (S (length (sem_wait s0))) s0 [] W0) as G.
+    destruct (grant (S (length (sem_wait s0))) s0 []) as [s2 os2]. cbn [fst snd] in *.
+    destruct G as [_ _ _ (_ & D2 & _ & _ & Rn2 & _) _ _ _ _].
+    destruct (is_note t); [destruct (nbar s2)|]; injection Hs as <- <-; cbn; rewrite ?D2, ?Rn2; exact P.
+  - destruct (nth_error (units s) u) as [un|]; [|discriminate].
+    destruct (u_st un); try discriminate.
+    destruct (release_ids_spec (unit_tasks s u) s) as [_ _ _ (_ & D1 & _ & _ & Rn1 & _) _ _ _].
+    destruct (u_chok un); cbn [negb] in Hs; injection Hs as <- <-; cbn; rewrite D1, Rn1; exact P.
+  - destruct (find_op n (ops s)) as [[n0|n0 id|n0 w m p]|]; try discriminate.
+    destruct (stop_locked SCStop (s <| ops ::= del_op n |>)) as [s0 os0] eqn:St. injection Hs as <- <-.
+    apply stop_locked_spec in St as [(_ & -> & _)|(_ & _ & Po)]; auto. destruct Po. congruence.
+  - destruct (find_op n (ops s)) as [[n0|n0 id|n0 w m p]|]; try discriminate.
+    injection Hs as <- <-. destruct (assoc id _) as [owner|]; [|exact P].
+    destruct (cancel_task_env owner (s <| ops ::= del_op n |>)) as (_ & D1 & _ & _ & Rn1 & _).
+    rewrite D1, Rn1. exact P.
+Qed.
+
+Lemma settle1_run_dp s s' os : run_dp s -> settle1 s = Some (s', os) -> run_dp s'.
+Proof.
+  intros P Hs. unfold run_dp in *. apply settle1_inv in Hs. destruct Hs; cbn; auto.
+  unfold dequeue. destruct (inq s) as [|[b ms] q]; [destruct (running s) eqn:Rn|]; cbn; auto. congruence.
+Qed.
+
+Lemma reachf_run_dp c s : reachf c s -> run_dp s.
+Proof.
+  induction 1 as [|s l s' os R IH Cr Hs|s s' os R IH Hs].
+  - unfold run_dp. cbn. discriminate.
+  - eapply raw_run_dp; eauto. eapply reachf_inv; eauto.
+  - eapply settle1_run_dp; eauto.
+Qed.
+
+(* parked goroutines that can always move *)
+Lemma enabled_in s l x : In x all_sites -> In l (candidates s x) -> step s l <> None -> In l (enabled_rel s).
+Proof.
+  intros Hx Hl Hs. unfold enabled_rel. apply filter_In. split.
+  - apply in_flat_map. exists x. auto.
+  - destruct (step s l); congruence.
+Qed.
+
+Lemma quiescent_none s l : quiescent s = true -> ~ In l (enabled_rel s).
+Proof. unfold quiescent. intros Q I. apply is_nil_list_true in Q. rewrite Q in I. destruct I. Qed.
+
+Lemma next_enabled s : crash s = None -> dp s = DAtNext -> In LRelNext (enabled_rel s).
+Proof.
+  intros Cr D. apply (enabled_in s LRelNext SNext); [cbn; tauto|cbn; rewrite D; left; auto|].
+  unfold step. rewrite Cr. cbn. rewrite D. destruct (crash (dequeue s)); discriminate.
+Qed.
+
+Lemma barrier_enabled s u : crash s = None -> dp s = DAtBarrier u -> In LRelBarrier (enabled_rel s).
+Proof.
+  intros Cr D. apply (enabled_in s LRelBarrier SBarrier); [cbn; tauto|cbn; rewrite D; left; auto|].
+  unfold step. rewrite Cr. cbn. rewrite D. cbn. rewrite Cr. discriminate.
+Qed.
+
+Lemma handled_enabled s k t o : crash s = None -> nth_error (tasks s) k = Some t -> t_st t = TAtHandled o ->
+  In (LRelHandled k) (enabled_rel s).
+Proof.
+  intros Cr E St. apply (enabled_in s (LRelHandled k) SHandled); [cbn; tauto| |].
+  - cbn. apply in_map. apply (in_idxs_where at_handled (tasks s) 0 k t E). unfold at_handled. rewrite St. auto.
+  - unfold step. rewrite Cr. unfold step_raw. rewrite E, St.
+    destruct (grant _ _ _) as [s2 os2]. destruct (is_note t); [destruct (nbar s2)|].
+    all: match goal with |- context [crash ?x] => destruct (crash x) end; discriminate.
+Qed.
+
+(* window boundaries are settled: the dispatcher is not left with work it could take *)
+Lemma settled_waitwork s : settle1 s = None -> dp s = DWaitWork -> running s = true /\ inq s = [].
+Proof.
+  intros H D. unfold settle1 in H. rewrite D in H.
+  destruct (running s); [destruct (inq s) as [|x q]; [auto|]|]; cbn in H.
+  all: destruct (rd s); [|destruct (ch_in s)| |]; discriminate.
+Qed.
+
+Lemma settled_barrier s u un : settle1 s = None -> dp s = DBarrierWait u -> nth_error (units s) u = Some un ->
+  nbar s <> 0.
+Proof.
+  intros H D E Z. unfold settle1 in H. rewrite D, E, Z in H. cbn in H.
+  destruct (rd s); [|destruct (ch_in s)| |]; discriminate.
+Qed.
+
+(* at a quiescent point of a running server the dispatcher waits for work with an empty queue,
+   or waits at the barrier with nbar > 0 *)
+Lemma quiescent_dp c s : reach c s -> crash s = None -> quiescent s = true -> running s = true ->
+  (dp s = DWaitWork /\ inq s = []) \/ (exists u, dp s = DBarrierWait u /\ 0 < nbar s).
+Proof.
+  intros R Cr Qu Rn. pose proof (reach_settled _ _ R Cr) as St. apply reach_reachf in R.
+  pose proof (reachf_run_dp _ _ R Rn) as L.
+  destruct (dp s) as [| | |u|u|] eqn:D; cbn in L; try discriminate.
+  - destruct (quiescent_none _ _ Qu (next_enabled _ Cr D)).
+  - left. split; auto. apply (settled_waitwork _ St D).
+  - destruct (quiescent_none _ _ Qu (barrier_enabled _ _ Cr D)).
+  - right. exists u. split; auto.
+    destruct (i_dp _ (reachf_inv _ _ R) u (or_intror D)) as (un & E & _).
+    pose proof (settled_barrier _ _ _ St D E). lia.
+Qed.
+
+(* at a quiescent point a task of a released unit is rejected, done, in its handler, or queued in
+   the semaphore with no free slot *)
+Lemma quiescent_task c s k t : reach c s -> crash s = None -> quiescent s = true ->
+  nth_error (tasks s) k = Some t -> released s (t_unit t) = true ->
+  t_st t = TSkip \/ (exists b, t_st t = TDone b) \/ t_st t = TRunning \/
+  (t_st t = TWaiting /\ sem_free s = 0 /\ SrvC06.slots_used s = cf_K c).
+Proof.
+  intros R Cr Qu E Rl. pose proof (reach_reachf _ _ R) as Rf. pose proof (reachf_inv _ _ Rf) as I.
+  destruct (t_st t) eqn:St; eauto.
+  - (* TAtAcquire: its goroutine is parked before Acquire and can move, or its unit is over *)
+    exfalso. unfold released, rel_in in Rl. destruct (nth_error (units s) (t_unit t)) as [un|] eqn:Eu; [|discriminate].
+    unfold released_u in Rl. destruct (u_st un) eqn:Su; try discriminate.
+    + apply (quiescent_none _ (LRelAcquire k) Qu). apply (SrvC06.acquire_in_enabled s k t); auto.
+      unfold at_acquire, unit_running. rewrite St, Eu, Su. reflexivity.
+    + pose proof (i_fin _ I _ _ Eu (or_introl Su)) as F. unfold all_finished, unit_tasks in F.
+      rewrite forallb_forall in F. specialize (F t). unfold finished in F. rewrite St in F.
+      assert (X : false = true); [apply F|discriminate]. apply filter_In. split; [eapply nth_error_In; eauto|apply Nat.eqb_refl].
+    + pose proof (i_fin _ I _ _ Eu (or_intror Su)) as F. unfold all_finished, unit_tasks in F.
+      rewrite forallb_forall in F. specialize (F t). unfold finished in F. rewrite St in F.
+      assert (X : false = true); [apply F|discriminate]. apply filter_In. split; [eapply nth_error_In; eauto|apply Nat.eqb_refl].
+  - (* TWaiting *)
+    right. right. right. destruct (SrvC06.wait_queue _ _ R) as (_ & Wq & Fr).
+    assert (F0 : sem_free s = 0).
+    { destruct (sem_free s) eqn:F; auto. assert (Em : sem_wait s = []) by (apply Fr; lia).
+      assert (Ik : In k (sem_wait s)) by (apply Wq; eauto). rewrite Em in Ik. destruct Ik. }
+    split; auto. split; auto. destruct (SrvC06.sem_invariant _ _ R). lia.
+  - (* TAtHandled *)
+    exfalso. apply (quiescent_none _ (LRelHandled k) Qu). eapply handled_enabled; eauto.
+Qed.
+
+(* (a) a later message is held back only by an unfinished NOTIFICATION of an earlier message,
+   which is in its handler or waiting for a handler slot; never by a call *)
+Theorem calls_do_not_block_later c s : reach c s -> crash s = None -> quiescent s = true -> running s = true ->
+  (inq s <> [] \/ exists u, bar s u) ->
+  exists u, dp s = DBarrierWait u /\ 0 < nbar s /\
+    exists j n, nth_error (tasks s) j = Some n /\ t_unit n < u /\ runnable n = true /\ is_note n = true /\
+      (t_st n = TRunning \/ (t_st n = TWaiting /\ sem_free s = 0)).
+Proof.
+  intros R Cr Qu Rn Hold. pose proof (reach_reachf _ _ R) as Rf.
+  destruct (quiescent_dp _ _ R Cr Qu Rn) as [(D & Iq)|(u & D & Pos)].
+  { exfalso. destruct Hold as [N|(u & [Hb|Hb])]; congruence. }
+  exists u. split; auto. split; auto.
+  rewrite (inv_nbar _ _ Rf) in Pos. apply countb_pos_ex in Pos as (j & n & E & Op).
+  unfold open_note, open_in in Op. apply andb_true_iff in Op as [Op Nd]. apply andb_true_iff in Op as [Rno Rl].
+  unfold rnote in Rno. apply andb_true_iff in Rno as [Ru Nn]. apply negb_true_iff in Nd.
+  destruct (proj1 (frontier _ _ Rf) u (or_intror D)) as (Lu & Ru0 & _).
+  assert (Lt : t_unit n < u).
+  { pose proof (rel_in_lt _ _ Rl). destruct (Nat.eq_dec (t_unit n) u) as [Eq|Ne]; [|lia].
+    unfold released in Ru0. rewrite Eq in Rl. congruence. }
+  exists j, n. split; auto. split; auto. split; auto. split; auto.
+  destruct (quiescent_task _ _ _ _ R Cr Qu E Rl) as [Sk|[(b & Dn)|[Rg|(W & F & _)]]]; auto.
+  - exfalso. unfold runnable in Ru. destruct (t_pre n) eqn:P; [discriminate|].
+    destruct (i_pre _ (reachf_inv _ _ Rf) _ _ E) as [_ X]. apply X; auto.
+  - unfold tdone in Nd. rewrite Dn in Nd. discriminate.
+Qed.
+
+(* (b) a request of a released message that has not entered its handler is queued in the
+   semaphore with every slot taken: held back only by the concurrency limit *)
+Theorem released_waits_only_for_slot c s k t : reach c s -> crash s = None -> quiescent s = true ->
+  nth_error (tasks s) k = Some t -> released s (t_unit t) = true ->
+  (t_st t = TAtAcquire \/ t_st t = TWaiting) ->
+  t_st t = TWaiting /\ sem_free s = 0 /\ SrvC06.slots_used s = cf_K c.
+Proof.
+  intros R Cr Qu E Rl St.
+  destruct (quiescent_task _ _ _ _ R Cr Qu E Rl) as [Sk|[(b & Dn)|[Rg|X]]]; auto; destruct St; congruence.
+Qed.
+
+(* the positive corollary: when no runnable notification of a released message is unfinished
+   (everything still in flight is a call), everything that arrived has been dispatched, whatever
+   calls are still running *)
+Theorem only_calls_all_dispatched c s : reach c s -> crash s = None -> quiescent s = true -> running s = true ->
+  (forall j n, nth_error (tasks s) j = Some n -> runnable n = true -> is_note n = true ->
+     released s (t_unit n) = true -> exists b, t_st n = TDone b) ->
+  inq s = [] /\ dp s = DWaitWork /\ nbar s = 0 /\ forall v, v < length (units s) -> released s v = true.
+Proof.
+  intros R Cr Qu Rn Hn. pose proof (reach_reachf _ _ R) as Rf.
+  assert (Z : nbar s = 0).
+  { rewrite (inv_nbar _ _ Rf). apply countb_zero_forall. intros x Hx. apply In_nth_error in Hx as (j & E).
+    unfold open_note, open_in, rnote.
+    destruct (runnable x) eqn:Ru, (is_note x) eqn:Nx, (rel_in (units s) (t_unit x)) eqn:Rl; cbn; auto.
+    destruct (Hn _ _ E Ru Nx Rl) as (b & Dn). unfold tdone. rewrite Dn. reflexivity. }
+  destruct (quiescent_dp _ _ R Cr Qu Rn) as [(D & Iq)|(u & D & Pos)]; [|lia].
+  split; auto. split; auto. split; auto.
+  apply (proj2 (frontier _ _ Rf)). intros u [Hb|Hb]; congruence.
+Qed.
